@@ -37,8 +37,8 @@ ASSUMPTIONS = [
     'of `help concept timeout` ("OS processes executed from within a test case") and is not checked',
     'only the process Exactly starts itself is checked; shell commands are written `$ exec PROBE ...` so that the '
     'process started by Exactly is the probe (grandchildren of a shell are outside the property)',
-    '`timeout = 0` is not generated (outcome would depend on scheduling); integer expressions come from a closed '
-    'vocabulary',
+    '`timeout = 0` is generated only in part Z, where the M2 record alone decides (whether the process is then seen to '
+    'expire depends on scheduling); integer expressions come from a closed vocabulary',
     '`env -of act` after the act phase starts no process (no observable effect), so that place exists in [setup] only',
     'a zombie (killed but not reaped) counts as terminated',
     'actors are selected with `[conf] actor = ...` and with --actor; an actor set by a suite file is not enumerated',
@@ -455,7 +455,18 @@ def _part_r(tier, seed):
         yield {'part': 'R', 'mode': mode, 'items': items, 'kill': None, 'label': {}}
 
 
+def _zero_cases():
+    """The boundary value `timeout = 0`: a timeout like any other (every later process is started with timeout 0), not
+    "no timeout".  Whether the process is then seen to expire depends on scheduling, so only the M2 record decides
+    (the workload and its monitor are those of C11's kind `zero`)."""
+    from vf.props import c11
+    for c in c11._zero_cases():
+        yield dict(c, part='Z')
+
+
 def cases(tier, seed):
+    for c in _zero_cases():
+        yield c
     sampled = set()
     i = 0
     for gen in (_part_b(tier), _part_a(tier), _part_r(tier, seed)):
@@ -697,6 +708,15 @@ def _check_m2(case, r, exp, ctx, bad, inconc):
 
 
 def run_case(case, ctx):
+    if case.get('part') == 'Z':
+        from vf.props import c11
+        r = c11._run_zero(case, ctx)
+        for v in r['viol']:
+            v['what'] = v['what'].replace('C11 timeout boundary', 'C19/Z timeout = 0')
+        for k in ('c11.zero_timeout_m2_compared', 'c11.zero_timeout_expired'):
+            pass
+        r['classes'] = [('Z',) + tuple(c[1:]) for c in r['classes']]
+        return r
     ses = ctx.get_session()
     d = ses.new_case_dir()
     text, files, extra_argv, b = render(case, d)
